@@ -211,7 +211,14 @@ func runC13Case[T comparable](c *core.Ctx, d *Dom[T], kind string) {
 				}
 			}
 		}
-		sa, sb := a.snap(), b.snap()
+		// In half of the cases the operands are not looked at before the call
+		// (a look would compact or refresh anything the operand keeps lazily);
+		// they are then compared with the member lists they were built from.
+		observed := r.Bool()
+		var sa, sb setSnap[T]
+		if observed {
+			sa, sb = a.snap(), b.snap()
+		}
 		c.Begin(kind, op, pk, ma, mb)
 		var res *algSet[T]
 		switch op {
@@ -242,11 +249,29 @@ func runC13Case[T comparable](c *core.Ctx, d *Dom[T], kind string) {
 			c.Fail("aliasing", "result-is-operand", "%s %s (%s pair) returned one of its operands instead of a new set", kind, op, pk)
 		}
 		// 3. operands unchanged by the call
-		if !a.unchanged(sa, a.snap()) {
-			c.Fail("side-effect", "receiver-changed", "%s %s changed its receiver: before %s, after %s", kind, op, short(sa.vals), short(a.S.Values()))
-		}
-		if !b.unchanged(sb, b.snap()) {
-			c.Fail("side-effect", "argument-changed", "%s %s changed its argument: before %s, after %s", kind, op, short(sb.vals), short(b.S.Values()))
+		if observed {
+			if !a.unchanged(sa, a.snap()) {
+				c.Fail("side-effect", "receiver-changed", "%s %s changed its receiver: before %s, after %s", kind, op, short(sa.vals), short(a.S.Values()))
+			}
+			if !b.unchanged(sb, b.snap()) {
+				c.Fail("side-effect", "argument-changed", "%s %s changed its argument: before %s, after %s", kind, op, short(sb.vals), short(b.S.Values()))
+			}
+		} else {
+			for _, o := range []struct {
+				s    *algSet[T]
+				want []T
+				who  string
+			}{{a, ma, "receiver"}, {b, mb, "argument"}} {
+				vs := o.s.S.Values()
+				ok := len(vs) == len(o.want) && o.s.S.Size() == len(o.want)
+				for _, x := range o.want {
+					ok = ok && a.has(vs, x)
+				}
+				if !ok {
+					c.Fail("side-effect", o.who+"-changed", "%s %s: its %s, built with members %v and not looked at before the call, enumerates %s afterwards", kind, op, o.who, o.want, short(vs))
+				}
+			}
+			c.Count("obs:operands-not-observed-before-the-call", 1)
 		}
 		// 4. TreeSet result is ordered by the operands' comparator and keeps it
 		if kind == "TreeSet" {
